@@ -363,3 +363,21 @@ package linker
 // parser's representability check never sees these names. Such a key must not become a symbol (it stays reachable
 // through the default export, where it is printed as a string).
 //@ guarded lazy-export-names-are-representable C16: func=(*linkerContext).generateCodeForLazyExport ; in=linker ; site=call generateExport ; only-under=true:*.Key.Data.(EString) ; scenario=json_nonbmp_key ; require-any=false:c.options.ASCIIOnly || false:call Has(c.options.UnsupportedJSFeatures,*) || false:call ContainsNonBMPCodePointUTF16(*)
+
+// C04 (tree shaking counts the uses that will really be printed): the linker discounts the calls of a function that
+// the printer will inline away (empty / identity functions). The printer inlines only when the symbol is NOT
+// CouldPotentiallyBeMutated (a reassigned function may no longer be empty), so the discount must test the same two
+// bits; otherwise the declaration loses its last counted use and is dropped while the printed call remains.
+//@ guarded inlining-discount-excludes-mutated-functions C04: func=(*linkerContext).scanImportsAndExports ; in=linker ; site=store SymbolCallUse.CallCountEstimate ; scenario=identity_function_reassigned ; require=true:*Flags&576==512
+
+// C04: a part that uses an imported symbol depends on EVERY part that declares it (a `var` may be declared by several
+// parts, `export var x = 1; var x = sideEffect()`): the dependency's part index is the loop element of a walk over
+// all the declaring parts, never one picked position.
+//@ flow import-use-depends-on-every-declaring-part C04: func=(*linkerContext).scanImportsAndExports ; in=linker ; site=store Dependency.PartIndex ; scenario=import_depends_on_first_declaring_part_only ; valuepath=call TopLevelSymbolToParts(*)[phi:rangeindex+1]|0|call GetIndex(*WrapperPartIndex)
+
+// C12 (each imported stylesheet is wrapped in exactly ITS chain of @import conditions): the condition chain handed to
+// visit() is recorded in the order entries (cssImportOrder.conditions keeps the slice), and sibling @imports extend the
+// same parent chain. Extending it in place lets a later sibling overwrite the element an earlier sibling's entries
+// still point to, so an extension must go to a copy.
+//@ flow condition-chain-extended-on-a-copy C12: func=(*linkerContext).findImportedFilesInCSSOrder ; in=linker ; site=builtin append ; when-arg=0:*Conditions* ; scenario=sibling_conditional_imports_share_chain ; arg-not-alias=0:wrappingConditions
+//@ flow condition-records-extended-on-a-copy C12: func=(*linkerContext).findImportedFilesInCSSOrder ; in=linker ; site=call CloneWithImportRecords ; scenario=sibling_conditional_imports_share_chain ; arg-not-alias=2:wrappingImportRecords
